@@ -45,10 +45,47 @@ let v_str = function
   | Util.Crash s -> Printf.sprintf "CRASH%d" (int_of_n s) | Util.OutOfFuel -> "FUEL"
 let b2s b = if b then "1" else "0"
 
+(* world form:  "W <consumer A|D|C> <nfiles> { <file> <nglobals> { <name> <ext> <fin> <wexpr> } } <cur> <wexpr>"
+   wexpr := I n | R g (global of the same file) | Q f g (file.name) | V mu 1 e | V mu 0 | K safe res | P res | E ty
+   stdout: "<outcome>" *)
+let rec wexpr () : wexpr =
+  match next () with
+  | "I" -> WInt (n_of_int (int_of_string (next ())))
+  | "R" -> WGlobal (n_of_int (int_of_string (next ())))
+  | "Q" -> let f = n_of_int (int_of_string (next ())) in let g = n_of_int (int_of_string (next ())) in WMember (f, g)
+  | "V" -> let mu = flag () in if flag () then (let v = wexpr () in WLocal (mu, Some v)) else WLocal (mu, None)
+  | "K" -> let s = flag () in let r = res () in WComptime (s, r)
+  | "P" -> WParam (res ())
+  | "E" -> WOther (flag ())
+  | t -> failwith ("bad wexpr token " ^ t)
+
+let world_case () =
+  let c = next () in
+  let nfiles = int_of_string (next ()) in
+  let tbl = ref [] in
+  for _ = 1 to nfiles do
+    let f = int_of_string (next ()) in
+    let ng = int_of_string (next ()) in
+    for _ = 1 to ng do
+      let g = int_of_string (next ()) in
+      let ext = flag () in let fin = flag () in let b = wexpr () in
+      tbl := ((f, g), { wg_extern = ext; wg_finished = fin; wg_body = b }) :: !tbl
+    done
+  done;
+  let cur = n_of_int (int_of_string (next ())) in
+  let e = wexpr () in
+  let t = !tbl in
+  let w f g = List.assoc_opt (int_of_n f, int_of_n g) t in
+  let fuel = nat_of_int 64 in
+  let o = match c with
+    | "A" -> array_len_w w fuel cur e | "D" -> discriminant_w w fuel cur e | _ -> comptime_arg_w w fuel cur e in
+  print_endline (out_str o)
+
 let () =
   iter_lines (fun line ->
     toks := Array.of_list (List.filter (fun s -> s <> "") (split_on ' ' (String.trim line)));
     pos := 0;
+    if !toks.(0) = "W" then (incr pos; world_case ()) else
     let c = next () in
     let e = expr () in
     let o = match c with
